@@ -3,6 +3,13 @@
 Model-based: an operation history over two live HTTPHeaders objects is applied to the real class
 and to a reference multimap (ordered dict lower-name -> list of values); every observable
 (reading, get_list, membership, len, iteration, get_all) is compared after every step.
+
+Sensitivity (quick tier, scratch copies):
+  pre-fix snapshot 59274db: add,add,del -> KeyError (F1)                       -> caught (present_name_not_deletable)
+  pre-fix snapshot: continuation line with an empty side (F17)                 -> caught (continuation_edge_whitespace)
+  seeded: __delitem__ clearing the cache under the caller's spelling           -> caught (stale joined value after delete)
+Reads populate the combined-value cache, so full observations are themselves generated ops ("get") —
+otherwise add,add,del without an intervening read would never be exercised.
 """
 import copy
 import itertools
